@@ -335,3 +335,25 @@ pub open spec fn sls_inputs_ok<CS: CipherSuite, S: SecretKey<CS::KeGroup>>(setup
 pub open spec fn elem_canonical<CS: CipherSuite>(b: Seq<u8>) -> bool {
     <OprfGroup<CS> as Group>::de_elem(b) is Some && <OprfGroup<CS> as Group>::ser_elem(<OprfGroup<CS> as Group>::de_elem(b)->0) == b
 }
+
+// ---- server login start: the values of one call as functions of (setup, record, request, parameters, tape) --------------------------
+pub open spec fn sls_esk<CS: CipherSuite>(pf: Option<ServerRegistration<CS>>, id: int, pos: nat) -> <CS::KeGroup as KeGroup>::Sk {
+    kp_sk::<CS::KeGroup, CS::OprfCs>(id, pos + sls_off::<CS>(pf) + 32)
+}
+pub open spec fn sls_snonce<CS: CipherSuite>(pf: Option<ServerRegistration<CS>>, id: int, pos: nat) -> Seq<u8> {
+    tape(id, pos + sls_off::<CS>(pf) + 32 + nsk::<CS>(), 32)
+}
+/// server side of 3DH (RFC 9807 6.4.4): dh1 = DH(server_eph_sk, client_eph_pk), dh2 = DH(server_static_sk, client_eph_pk), dh3 = DH(server_eph_sk, client_static_pk)
+pub open spec fn sls_prk<CS: CipherSuite, S: SecretKey<CS::KeGroup>>(setup: ServerSetup<CS, S>, pf: Option<ServerRegistration<CS>>, req: CredentialRequest<CS>, id: int, pos: nat) -> Seq<u8> {
+    let esk = sls_esk::<CS>(pf, id, pos);
+    rfc_prk::<OprfHash<CS>>(<CS::KeGroup as KeGroup>::dh(req.ke1_message.client_e_pk.0, esk), setup.keypair.sk.dh_res(req.ke1_message.client_e_pk)->Ok_0,
+        <CS::KeGroup as KeGroup>::dh(sls_cpk::<CS, S>(setup, pf), esk))
+}
+pub open spec fn sls_pre<CS: CipherSuite, S: SecretKey<CS::KeGroup>>(setup: ServerSetup<CS, S>, pf: Option<ServerRegistration<CS>>, req: CredentialRequest<CS>,
+        p: ServerLoginStartParameters, resp: CredentialResponse<CS>, id: int, pos: nat) -> Seq<u8> {
+    let spk_bytes = <CS::KeGroup as KeGroup>::ser_pk(setup.keypair.sk.pk_res()->Ok_0.0);
+    let creq = <OprfGroup<CS> as Group>::ser_elem(req.blinded_element.v()) + req.ke1_message.client_nonce@ + <CS::KeGroup as KeGroup>::ser_pk(req.ke1_message.client_e_pk.0);
+    let l2 = <OprfGroup<CS> as Group>::ser_elem(resp.evaluation_element.v()) + resp.masking_nonce@ + masked_ser(resp.masked_response);
+    rfc_preamble(ctx_of(p.context), eff_id(p.identifiers.client, <CS::KeGroup as KeGroup>::ser_pk(sls_cpk::<CS, S>(setup, pf))), creq, eff_id(p.identifiers.server, spk_bytes), l2,
+        sls_snonce::<CS>(pf, id, pos), <CS::KeGroup as KeGroup>::ser_pk(<CS::KeGroup as KeGroup>::pk_of(sls_esk::<CS>(pf, id, pos))))
+}
